@@ -9,6 +9,7 @@ import os
 from .. import audit, classify, drive, hist, world
 from ..oracle import ignoreref, refhash, xmlread
 
+TECHNIQUE = 'runtime monitoring: partition / reference / write-order checker over manifests of nested histories (independent reader, audit-event order)'
 LEVEL = "exploration"
 RULE = (
     "case = directory skeleton with prefix-named siblings (K, KA, 'K A'), chains to depth 4 and an optional ignored sub tree, "
